@@ -36,6 +36,24 @@ def wireOp : List String → String
     | _, _ => "BADLINE"
   | _ => "BADLINE"
 
+/-- `wire2 <kind> <m1> <m2> <captured>`: two messages on one connection; the receiver, restarted after the first
+    end-of-data marker, reconstructs both -/
+def wire2Op : List String → String
+  | [_kind, m1, m2, cap] =>
+    match ofHex m1, ofHex m2, ofHex cap with
+    | some a, some b, some c =>
+      let w1 := wire a
+      let first := c.take w1.length
+      let second := c.drop w1.length
+      match oracle a first with
+      | some e => propfail ("first-message:" ++ e)
+      | none =>
+        match oracle b second with
+        | some e => propfail ("second-message-on-the-same-connection:" ++ e)
+        | none => if w1 ++ wire b != c then mismatch "wire2" (w1 ++ wire b) else "ok"
+    | _, _, _ => "BADLINE"
+  | _ => "BADLINE"
+
 /-- `estep <state 0|1|2> <byte> <impl out> <impl state'>` — exhaustive transition table -/
 def estepOp : List String → String
   | [st, b, out, st'] =>
